@@ -108,6 +108,39 @@ def run(ctx):
             if bad:
                 ctx.fail("InvalidJson range is not faithful: " + bad, name, r[:200])
     ctx.notes["big_inputs"] = big
+    # the lexical scale families at 64 KiB / 1 MiB (the extracted model is too slow there): the implementation must
+    # return, report faithful ranges, and accept exactly what an independent strict parser (Python's json, NaN /
+    # Infinity refused) accepts
+    import json as _json
+    def py_ok(t):
+        def bad(_):
+            raise ValueError("constant")
+        try:
+            _json.loads(t, parse_constant=bad, parse_int=str, parse_float=str)     # no numeric conversion limits
+            return True
+        except RecursionError:
+            return None
+        except ValueError:
+            return False
+    bt = textlib.scale_texts(ctx.rng, big=True)
+    n_big, hangs = 0, 0
+    for t in bt[:: (2 if quick else 1)]:
+        if hangs >= 3:
+            break
+        r, secs = textlib.run_guarded(vlib.HARNESS, "from_str\t" + hx(t), 60, stack_kb=2048)
+        hangs += r == "HANG"
+        ctx.evaluations += 1; n_big += 1
+        case = "from_str\t<scale text, %d bytes, starts %r, ends %r>" % (len(t.encode()), t[:12], t[-8:])
+        if r in ("PANIC", "HANG") or r.startswith("CRASH"):
+            ctx.fail("large text: " + r, case, None); continue
+        bad = textlib.check_invalid_json(t, r)
+        if bad:
+            ctx.fail("InvalidJson range is not faithful: " + bad, case, r[:200])
+        want = py_ok(t)
+        if want is not None and r.startswith("OK ") != want:
+            ctx.fail("a large text is %s although an independent strict JSON parser %s it" %
+                     (("accepted", "rejects") if not want else ("rejected", "accepts")), case, r[:120])
+    ctx.notes["large_scale_texts"] = n_big
     # ---- recursion depth: the depth hook (frames of parse_cst / parse_rule / parse_member / parse_token
     #      simultaneously active) must equal the model's walk_depth, whose bound 515 is a theorem
     deep = []
